@@ -140,17 +140,17 @@ NOT_APPLICABLE = {}
 _A = 'Coq kernel; no axioms; hand-written Layer A model of src/lib.rs + src/iter.rs validated against the real crate by step-wise differential runs (bounded by the traces run: structured random + corpus, debug and release, 5 hashers incl. all-colliding); hashbrown RawTable contract assumed'
 _T = 'Coq proof (invariant / characterisation lemmas by induction over operations, all oracles) + extracted-model differential correspondence and extracted monitors on the implementation'
 MANIFEST_TEXT = {
-    'C01': dict(text='Theorems C01_bound / C01_arith over every reachable state of the Layer A model (all histories, limits 0..2^64-1, capacities, table oracles): bound on the counter and on the unbounded sum of size estimates, no 64-bit under/overflow, eviction loop terminates. Tied to /repo by the step-wise differential check and the extracted monitor c01_mon on the implementation.', note=_A, technique=_T),
+    'C01': dict(text='Theorems C01_bound / C01_arith over every reachable state of the Layer A model (all histories, limits 0..2^64-1, capacities, table oracles): bound on the counter and on the unbounded sum of size estimates, no 64-bit under/overflow, eviction loop terminates; C01_total: with the invariant of the hash table itself and tables below 2^48 entries every step is defined. Tied to /repo by the step-wise differential check and the extracted monitor c01_mon on the implementation.', note=_A, technique=_T),
     'C02': dict(text='Theorem C02_sum (cur = sum of recorded sizes = sum of entry_size, zero iff empty, one entry per key) over every reachable state; recorded per-entry sizes are read through the snapshot hook and compared after every step.', note=_A, technique=_T),
     'C03': dict(text='Theorems C03_insert / C03_mutate / C03_set_max: the evicted entries are exactly the shortest LRU-first prefix (minimal_prefix) computed after crediting a replaced key, never the new or mutated entry; C03_exact_fit; C03_only_when (only successful insert, growing mutate, set_max_size evict). Eviction order of the implementation is read from the drop order.', note=_A, technique=_T),
-    'C05': dict(text='Theorem C05_order for every operation: keys after = surviving keys in their old relative order ++ promoted key, with the exact table of promoting operations; C05_observers: observers leave the state identical. Order of the implementation is read through the hook walk and cross-checked against iter()/rev()/keys()/values()/peek_lru/peek_mru/Debug after every step.', note=_A, technique=_T),
+    'C05': dict(text='Theorem C05_order for every operation: keys after = surviving keys in their old relative order ++ promoted key, with the exact table of promoting operations; C05_observers: observers leave the state identical; C05_touch/remove/insert/realloc_pointer (Layer B): the list surgery acts on the abstract entry list exactly so, reallocation in any table order is the identity. Order of the implementation is read through the hook walk and cross-checked against iter()/rev()/keys()/values()/peek_lru/peek_mru/Debug after every step.', note=_A, technique=_T),
     'C10': dict(text='Theorems C10_insert / C10_try_insert: exact classification with precedence, exact payload figures, atomicity of every failure (state equality incl. table), no eviction when the entry fits. The harness compares variant, all fields, identity tokens of the returned pair and bit-for-bit pointer structure before/after.', note=_A, technique=_T),
     'C11': dict(text='Theorems C11_absent / C11_too_large / C11_ok characterise mutate for every state and size change (shrink, equal, growth that fits with minimal eviction, growth beyond the limit with exact old/new sizes and untouched remainder).', note=_A + '; closure-not-called for absent keys is a harness observation', technique=_T),
     'C04': dict(text='Theorems C04_nodup (one entry per key in every reachable state), C04_outputs / C04_insert_returns_old (every lookup, membership test, insertion, removal returns what the map says) and C04_step (every step updates the key->value map as a sequential map would, whatever the table oracle does: growth/reserve/shrink anywhere). "Any hasher / borrowed form" is the assumed hashbrown contract, exercised not proved (partial, see note).', note=_A + '; partial: independence from the hash function rests on the assumed hashbrown contract', technique=_T),
     'C06': dict(text='Theorems C06_step (per-step multiset balance of object tokens: held + introduced = held + dropped + handed back (+ leaked by a forgotten Drain)) and C06_exactly_once (any history from creation to drop: every token exactly once in dropped / returned / leaked, never two of them), C06_no_leak_without_forget. The extracted monitor c06_mon and a never-dropped-twice check run on the implementation at identity level.', note=_A + '; the ptr::read paths of owning iterators are covered at list level here and at pointer level in Layer B', technique=_T),
     'C12': dict(text='Theorems C12_split / C12_fused: for every pattern of next/next_back on every list, fronts ++ rest ++ rev backs = list, None only after exhaustion and then for ever; C12_iter / C12_drain / C12_into_iter tie the operations to that specification (drain leaves an empty, valid cache; owning iterators drop exactly the unconsumed). Item sequences of all seven iterator kinds with random patterns past exhaustion are compared.', note=_A, technique=_T),
-    'C13': dict(text='Theorems over the Layer T abstraction of hashbrown capacity accounting, all oracles: C13_reserve, C13_shrink / C13_shrink_to_fit (never raises, keeps >= max(len,min)), C13_try_reserve_fail (state unchanged), C13_transparent, C13_with_capacity_step, C13_auto_growth (growth only when full, new capacity < max(4 x entries, 16)); arithmetic of capacity_to_buckets / bucket_mask_to_capacity proved (c2b_spec). Monitors c13_mon and the history growth bound run on the implementation.', note=_A + '; tombstone behaviour of hashbrown is an oracle (over-approximated)', technique=_T),
-    'C14': dict(text='Theorems C14_equal (same entries, order, recorded sizes, counters; capacity >= source), C14_fresh, C14_inv (the clone satisfies the invariant so all theorems apply to it). Independence is a value-semantics fact of the model; on the implementation it is observed through bit-for-bit fingerprints of all other caches after every operation.', note=_A + '; shared-heap frame theorems (Layer B) cover the list-surgery primitives, not whole public operations', technique=_T),
+    'C13': dict(text='Theorems over the Layer T abstraction of hashbrown capacity accounting, all oracles: C13_reserve, C13_shrink / C13_shrink_to_fit (never raises, keeps >= max(len,min)), C13_try_reserve_fail (state unchanged), C13_transparent, C13_with_capacity_step, C13_auto_growth (growth only when full, new capacity < max(4 x entries, 16)), C13_growth_bounded (over whole histories with ghost peak/request variables: full capacity < max(4 x peak len, 16) or within an explicit request, however long the churn); arithmetic of capacity_to_buckets / bucket_mask_to_capacity proved (c2b_spec). Monitors c13_mon and the history growth bound run on the implementation.', note=_A + '; tombstone behaviour of hashbrown is an oracle (over-approximated)', technique=_T),
+    'C14': dict(text='Theorems C14_equal (same entries, order, recorded sizes, counters; capacity >= source), C14_fresh, C14_inv (the clone satisfies the invariant so all theorems apply to it); Layer B frame theorems C14_footprint_touch/remove/insert and C14_independent: in a shared heap the list surgery on one cache writes only the nodes of that cache, so a cache with disjoint nodes keeps its invariant and content. On the implementation independence is observed through bit-for-bit fingerprints of all other caches after every operation.', note=_A + '; shared-heap frame theorems (Layer B) cover the list-surgery primitives, not whole public operations', technique=_T),
     'C15': dict(text='Theorem C15_retain for all predicates: visits = entries LRU to MRU once each with their own key/value, survivors = filter in order, size and drops re-accounted.', note=_A, technique=_T),
     'C20': dict(text='Theorem C20_bound for every operation, state and oracle: hashes + len after <= 2 + len before + added + (rebuilt ? len : 0), zero for traversals/clear/drain/LRU-MRU peeks/get_lru, rebuild only for reserve/try_reserve/shrink*/growing insertion; C20_clone. The implementation count of Hash::hash calls per API call must be <= the model count and satisfy the extracted bound c20_mon.', note=_A, technique=_T),
     'C18': dict(engine='coq-gen+rustc', text='Tables regenerated from /repo/src on every run by a syn translator (impl bounds, field types, signatures with the origin of every returned lifetime); Coq theorems over the finite generated tables (C18_send/C18_sync: the written bounds are exactly K,V,S; C18_not_auto: a raw pointer blocks the auto impls; C18_borrow: every returned reference/borrowing iterator carries the receiver lifetime); rustc is the oracle: ~290 generated probe programs (full (Send,Sync) witness cube per parameter, misuse/legitimate program per signature row) must be accepted/rejected as the tables predict.', note='rustc is the oracle for trait solving and borrow checking; the translator is syntactic; theorems are over generated finite tables (closed by computation)', technique='generated Coq tables + theorems, validated against rustc accept/reject of generated probe programs', ref='DESIGN.md section 7 (C18), coq/Gen/README.md'),
